@@ -9,6 +9,7 @@ CONSTANTS
   MaxTicks = 0
   SegCap = 2
   PeriodicAdv = TRUE
+  PeriodicFix = TRUE
   EnqAnywhere = FALSE
   Record = TRUE
 INVARIANTS TypeOK
